@@ -101,6 +101,52 @@ def _denovo_assembler(*, genotype, inbreeding, reads, read_counts, n_alleles, st
 
 
 
+
+
+class DenovoMCMC:
+    def fit(self, reads, read_counts=None, initial=None):
+
+        """Fit the parametized model to a set of probabilistically encoded variable positions of NGS reads."""
+
+        n_reads, n_pos, max_allele = reads.shape
+
+        if n_reads == 0:
+
+            assert len(self.n_alleles) == n_pos
+
+            n_reads = 1
+
+            reads = np.empty((n_reads, n_pos, max_allele), dtype=float)
+
+            reads[:] = np.nan
+
+            read_counts = None
+
+        if self.random_seed is not None:
+
+            np.random.seed(self.random_seed)
+
+            seed_numba(self.random_seed)
+
+        if initial is None:
+
+            initial = [None for _ in range(self.chains)]
+
+        genotypes = []
+
+        llks = []
+
+        for chain in range(self.chains):
+
+            gen_trace, llk_trace = self._mcmc(reads, read_counts=read_counts, initial=initial[chain])
+
+            genotypes.append(gen_trace)
+
+            llks.append(llk_trace)
+
+        return GenotypeMultiTrace(np.array(genotypes), np.array(llks))
+
+
 class DenovoMCMC:
     def _mcmc(self, reads, read_counts, initial=None):
 
@@ -111,6 +157,12 @@ class DenovoMCMC:
         hom_probs = _homozygosity_probabilities(reads, n_alleles, self.ploidy, inbreeding=self.inbreeding, read_counts=read_counts)
 
         fixed = hom_probs >= self.fix_homozygous
+
+        if fixed.size:
+
+            best = np.argmax(hom_probs, axis=-1)
+
+            fixed &= np.arange(hom_probs.shape[-1]) == best[:, None]
 
         homozygous = np.any(fixed, axis=-1)
 
@@ -195,47 +247,3 @@ class DenovoMCMC:
             template[:, :, heterozygous] = genotypes
 
             return (template, llks)
-
-
-class DenovoMCMC:
-    def fit(self, reads, read_counts=None, initial=None):
-
-        """Fit the parametized model to a set of probabilistically encoded variable positions of NGS reads."""
-
-        n_reads, n_pos, max_allele = reads.shape
-
-        if n_reads == 0:
-
-            assert len(self.n_alleles) == n_pos
-
-            n_reads = 1
-
-            reads = np.empty((n_reads, n_pos, max_allele), dtype=float)
-
-            reads[:] = np.nan
-
-            read_counts = None
-
-        if self.random_seed is not None:
-
-            np.random.seed(self.random_seed)
-
-            seed_numba(self.random_seed)
-
-        if initial is None:
-
-            initial = [None for _ in range(self.chains)]
-
-        genotypes = []
-
-        llks = []
-
-        for chain in range(self.chains):
-
-            gen_trace, llk_trace = self._mcmc(reads, read_counts=read_counts, initial=initial[chain])
-
-            genotypes.append(gen_trace)
-
-            llks.append(llk_trace)
-
-        return GenotypeMultiTrace(np.array(genotypes), np.array(llks))
